@@ -1240,7 +1240,7 @@ def bounded(seq, bounds, index=None, clip=True, nearest=True):
     if not len(at): return seq
     # (integers can't hold a fraction, or short types a large bound)
     if not (clip and _holds(seq.dtype, bounds[isfinite(bounds)])):
-        seq = seq.astype(float)
+        seq = seq.astype(result_type(seq.dtype, float)) # (at least a double)
     if clip:
         if nearest: # clip at closest bounds
             seq_at = seq[at]
